@@ -14,7 +14,8 @@ open Cel
 /-! ## dispatch of the `__new__` ladders, compared semantically
 
 `xNewSpec k t`: for a source of exact class `k` (with text `t` when it is a str) the statements
-`X.__new__` executes — the pinned reading of the source the model (`Cel.Conv.intOfText` …) was written
+`X.__new__` executes (round 4: in the leaf normal form of the translator — `cast(T, x)` is `x`, a local bound
+just to be used once in the next statement is folded into it) — the pinned reading of the source the model (`Cel.Conv.intOfText` …) was written
 from.  The regenerated functions must agree for EVERY class and EVERY text; how the source spells
 the dispatch (nesting, `and`, early returns, order of tuple / set members) is immaterial. -/
 
@@ -23,39 +24,39 @@ def intTypeNewSpec (k : Cel.Conv.Cls) (t : List Nat) : String :=
   else 
     if Cel.Conv.isInst k [.IntType] then "return source"
     else 
-      if Cel.Conv.isInst k [.MessageType] then "return super().__new__(cls, cast(int, source.get(StringType('value'))))"
+      if Cel.Conv.isInst k [.MessageType] then "return super().__new__(cls, source.get(StringType('value')))"
       else 
-        if Cel.Conv.isInst k [.float, .DoubleType] then "convert = int64(trunc); return super().__new__(cls, convert(source))"
+        if Cel.Conv.isInst k [.float, .DoubleType] then "return super().__new__(cls, int64(trunc)(source))"
         else 
-          if Cel.Conv.isInst k [.TimestampType] then "convert = int64(lambda src: src.timestamp()); return super().__new__(cls, convert(source))"
+          if Cel.Conv.isInst k [.TimestampType] then "return super().__new__(cls, int64(lambda src: src.timestamp())(source))"
           else 
-            if (Cel.Conv.isInst k [.str, .StringType] && Cel.Conv.prefixIn t 2 [[48, 88], [48, 120]]) then "convert = int64(lambda src: int(src[2:], 16)); return super().__new__(cls, convert(source))"
+            if (Cel.Conv.isInst k [.str, .StringType] && Cel.Conv.prefixIn t 2 [[48, 88], [48, 120]]) then "return super().__new__(cls, int64(lambda src: int(src[2:], 16))(source))"
             else 
-              if (Cel.Conv.isInst k [.str, .StringType] && Cel.Conv.prefixIn t 3 [[45, 48, 88], [45, 48, 120]]) then "convert = int64(lambda src: -int(src[3:], 16)); return super().__new__(cls, convert(source))"
-              else "convert = int64(int); return super().__new__(cls, convert(source))"
+              if (Cel.Conv.isInst k [.str, .StringType] && Cel.Conv.prefixIn t 3 [[45, 48, 88], [45, 48, 120]]) then "return super().__new__(cls, int64(lambda src: -int(src[3:], 16))(source))"
+              else "return super().__new__(cls, int64(int)(source))"
 def uintTypeNewSpec (k : Cel.Conv.Cls) (t : List Nat) : String :=
   if Cel.Conv.isInst k [.UintType] then "return source"
   else 
-    if Cel.Conv.isInst k [.float, .DoubleType] then "convert = uint64(trunc); return super().__new__(cls, convert(source))"
+    if Cel.Conv.isInst k [.float, .DoubleType] then "return super().__new__(cls, uint64(trunc)(source))"
     else 
-      if Cel.Conv.isInst k [.TimestampType] then "convert = uint64(lambda src: src.timestamp()); return super().__new__(cls, convert(source))"
+      if Cel.Conv.isInst k [.TimestampType] then "return super().__new__(cls, uint64(lambda src: src.timestamp())(source))"
       else 
-        if (Cel.Conv.isInst k [.str, .StringType] && Cel.Conv.prefixIn t 2 [[48, 88], [48, 120]]) then "convert = uint64(lambda src: int(src[2:], 16)); return super().__new__(cls, convert(source))"
+        if (Cel.Conv.isInst k [.str, .StringType] && Cel.Conv.prefixIn t 2 [[48, 88], [48, 120]]) then "return super().__new__(cls, uint64(lambda src: int(src[2:], 16))(source))"
         else 
-          if Cel.Conv.isInst k [.MessageType] then "convert = uint64(lambda src: src['value'] if src['value'] is not None else 0); return super().__new__(cls, convert(source))"
+          if Cel.Conv.isInst k [.MessageType] then "return super().__new__(cls, uint64(lambda src: src['value'] if src['value'] is not None else 0)(source))"
           else 
-            if Cel.Conv.isInst k [.NoneType] then "convert = uint64(lambda src: 0); return super().__new__(cls, convert(source))"
-            else "convert = uint64(int); return super().__new__(cls, convert(source))"
+            if Cel.Conv.isInst k [.NoneType] then "return super().__new__(cls, uint64(lambda src: 0)(source))"
+            else "return super().__new__(cls, uint64(int)(source))"
 def doubleTypeNewSpec (k : Cel.Conv.Cls) (t : List Nat) : String :=
   if Cel.Conv.isInst k [.NoneType] then "return super().__new__(cls, 0)"
   else 
-    if Cel.Conv.isInst k [.MessageType] then "return super().__new__(cls, cast(float, source.get(StringType('value'))))"
+    if Cel.Conv.isInst k [.MessageType] then "return super().__new__(cls, source.get(StringType('value')))"
     else "return super().__new__(cls, source)"
 def stringTypeNewSpec (k : Cel.Conv.Cls) (t : List Nat) : String :=
   if Cel.Conv.isInst k [.bytes, .BytesType] then "return super().__new__(cls, source.decode('utf'))"
   else 
     if Cel.Conv.isInst k [.str, .StringType] then "return super().__new__(cls, source)"
-    else "return cast(StringType, super().__new__(cls, source))"
+    else "return super().__new__(cls, source)"
 def bytesTypeNewSpec (k : Cel.Conv.Cls) (t : List Nat) : String :=
   if Cel.Conv.isInst k [.NoneType] then "return super().__new__(cls, b'')"
   else 
@@ -63,7 +64,7 @@ def bytesTypeNewSpec (k : Cel.Conv.Cls) (t : List Nat) : String :=
     else 
       if Cel.Conv.isInst k [.str, .StringType] then "return super().__new__(cls, source.encode('utf-8'))"
       else 
-        if Cel.Conv.isInst k [.MessageType] then "return super().__new__(cls, cast(bytes, source.get(StringType('value'))))"
+        if Cel.Conv.isInst k [.MessageType] then "return super().__new__(cls, source.get(StringType('value')))"
         else 
           if Cel.Conv.isInst k [.Iterable] then "return super().__new__(cls, source)"
           else "raise TypeError(f'Invalid initial value type: {type(source)}')"
@@ -72,7 +73,7 @@ def boolTypeNewSpec (k : Cel.Conv.Cls) (t : List Nat) : String :=
   else 
     if Cel.Conv.isInst k [.BoolType] then "return source"
     else 
-      if Cel.Conv.isInst k [.MessageType] then "return super().__new__(cls, cast(int, source.get(StringType('value'))))"
+      if Cel.Conv.isInst k [.MessageType] then "return super().__new__(cls, source.get(StringType('value')))"
       else 
         if Cel.Conv.isInst k [.str, .StringType] then 
           if Cel.Conv.textIn t [[70, 65, 76, 83, 69], [70, 97, 108, 115, 101], [102], [102, 97, 108, 115, 101]] then "return super().__new__(cls, 0)"
@@ -126,9 +127,9 @@ theorem doubleTypeStr_eq : Gen.Conv.doubleTypeStr =
 theorem boolTypeStr_eq : Gen.Conv.boolTypeStr =
     "return str(bool(self))" := rfl
 theorem timestampTypeStr_eq : Gen.Conv.timestampTypeStr =
-    "text = f'{self.year:04d}' + self.strftime('-%m-%dT%H:%M:%S%z')\nif text.endswith('+0000'):\n    return f'{text[:-5]}Z'\nreturn f'{text[:-2]}:{text[-2:]}'" := rfl
+    "return ite(endswith(cat(fmt(self.year|04d|-1), self.strftime('-%m-%dT%H:%M:%S%z')), '+0000'), cat(slice(cat(fmt(self.year|04d|-1), self.strftime('-%m-%dT%H:%M:%S%z')), None, -5), 'Z'), cat(slice(cat(fmt(self.year|04d|-1), self.strftime('-%m-%dT%H:%M:%S%z')), None, -2), ':', slice(cat(fmt(self.year|04d|-1), self.strftime('-%m-%dT%H:%M:%S%z')), -2, None)))" := rfl
 theorem durationTypeStr_eq : Gen.Conv.durationTypeStr =
-    "return '{0}s'.format(int(self.total_seconds()))" := rfl
+    "return cat(fmt(int(self.total_seconds())||-1), 's')" := rfl
 theorem conversions_eq : Gen.Conv.conversions =
     [("bool", "celpy.celtypes.BoolType"),
    ("bytes", "celpy.celtypes.BytesType"),
